@@ -71,6 +71,13 @@ CHECKS = {
          "sparse column- and row-major storage; oracle in long double: normal-equation backward error, dense = sparse when cond <= 1e8, "
          "analytic d|D dx|/dlambda cross-checked by complex step, lambda = 1/Delta, descent, colwise_norm = definition.",
     design="4/C10", technique="explicit-state enumeration of a finite input product space against a long-double reference"),
+ "C11": dict(
+    text="Bounded exhaustive enumeration: K=1..6 x 5 groups x 3 cumulative basis matrices (Bernstein, B-spline, an integer test matrix) x u in "
+         "{0,1e-9,1/4,1/2,1-1e-9,1} x every K-tuple over an 8-entry difference alphabet (K<=3; 4 entries for K>=4) x every admissible set of "
+         "requested outputs: value against the product of matrix exponentials in long double, velocity / acceleration / jerk against exact "
+         "Taylor jets of that reference curve (validated by __float128 stencils), Jacobians w.r.t. differences and control points against "
+         "central differences of the reference through rplus with __float128 logarithms.",
+    design="4/C11", technique="explicit-state enumeration of finite input product spaces against a reference model"),
  "C12": dict(
     text="Explicit-state breadth-first search over the real Spline<K,G> (13 (K,G) configurations, K in {1,2,3,5}): operations concat_local / "
          "concat_global with every atom of a 4-atom menu and crop(ta,tb,localize) with ta,tb from a state-dependent menu (below range, 0, every "
